@@ -30,6 +30,10 @@ claim("C19", "select-arm/polarity table extraction from the AST and CFG of utils
       "Static protocol-shape conditions only: the timeout goroutine calls its callback exactly once on the tick arm and never on the stop arm; the interval goroutine re-arms before running the callback and returns on the stop arm; Stop/Refresh polarities; Reset on every Refresh path; every timer created in /repo is cancelled by its owner's teardown and a holder is never overwritten without clearing; no dereferencing Timer method on a holder that can be nil. A looping goroutine requires an unconditional stop signal (violated by SetInterval: listed finding). Exact-once firing, never-after-cancel, promptness and refresh timing under all orders of runtime timer, goroutine and canceller — the bulk of the statement — are NOT decided.",
       TB, "DESIGN.md §3 C19")
 
+claim("C03", "who-may-write state table with constant evaluation, atomic-transition (CAS/Swap) rule, dominance and must-precede queries on go/cfg, listener register/remove pairing over resolved objects",
+      "Static rules over engine/socket.go and transports/transport.go: the ready state is written only by the four transitions of the table, each strictly forward and each a single CompareAndSwap/Swap whose result licenses its effects (the structural form of 'exactly one close event under every interleaving'); the close epilogue (timers cleared, both callback queues cleared, transport listeners removed) precedes the single Emit(close), which only OnClose may emit; every OnClose call carries a documented reason constant; every session-level emit of the silenced events and every effect of sendPacket is dominated by a state test excluding closed (closing); listener registrations are paired with removals; transport Close/OnClose are guarded. That no schedule yields a second event follows from the atomic transitions by a pencil argument; schedules are not explored.",
+      TB, "DESIGN.md §3 C03")
+
 UNDER_CONSTRUCTION = "static rule set designed in DESIGN.md §3 but its checker is not built yet in this revision; not claimed until it is"
 
 def main():
